@@ -55,3 +55,23 @@ def run(ctx, names, dialects=("MYSQL", "HIVE"), thorough_dialects=None, judge=No
             ctx.count("small-scope:%s:%s:accepted" % (nm, d), sum(1 for _, a, _ in res if a.startswith("OK")))
             ctx.count("small-scope:%s:%s:sequences" % (nm, d), len(texts))
     return total
+
+
+# every complete expression over a small alphabet (length ≤ n) in every HOST position that prints its operand with a bracket rule of its own: the printer's decision
+# "does this child need brackets here" for every (host, expression shape) pair, not for the pairs a random tree happens to contain
+EXPR_ALPHA = ["a", "1", "(a OR b)", "(a = 1)", "(a + 1)", "NOT", "-", "*", "=", "OR", "AND", "IS", "IN", "(1)", "BETWEEN", "LIKE", "!", "~", "XOR", "<"]
+HOSTS = ["SELECT {X} FROM t", "INSERT INTO t VALUES ({X})", "SELECT CAST({X} AS INT), f({X}) OVER (PARTITION BY {X} ORDER BY {X}) FROM t", "SELECT a FROM t GROUP BY {X} ORDER BY {X}",
+         "UPDATE t SET a = {X} WHERE {X}", "INSERT OVERWRITE TABLE t PARTITION (dt = {X}) SELECT 1", "CREATE TABLE t (a int DEFAULT {X}, b DECIMAL({X}) GENERATED ALWAYS AS ({X}) VIRTUAL)",
+         "SELECT a[{X}] FROM t SORT BY {X} DISTRIBUTE BY {X}", "SELECT CASE {X} WHEN {X} THEN {X} ELSE {X} END, EXTRACT(YEAR FROM {X}) FROM t",
+         "SELECT a IN ({X}, 1), a BETWEEN {X} AND {X}, - {X}, NOT {X} FROM t", "SELECT a FROM t GROUP BY GROUPING SETS (({X}), ({X}, a))", "SELECT IF({X}, {X}, 1), a LIKE {X}, {X} IS NULL FROM t",
+         "SELECT a FROM t JOIN u ON {X} LEFT JOIN v USING ({X})", "SELECT a FROM t WHERE {X} HAVING {X} LIMIT 1", "SELECT f({X}, {X}), COUNT(DISTINCT {X}), s.g({X}) FROM t",
+         "DELETE FROM t WHERE {X} ORDER BY {X}", "SELECT a FROM t LATERAL VIEW explode({X}) v AS x", "ALTER TABLE t ADD PARTITION (dt = {X})", "SELECT ({X}), (({X})), EXISTS (SELECT {X}) FROM t",
+         "SELECT a FROM (SELECT {X} AS b FROM t) q WHERE a IN (SELECT {X} FROM u)"]
+
+
+def host_texts(ctx, n):
+    exprs = list(sequences(EXPR_ALPHA, n))
+    res = E.run_impl([pfam.req_parse("HIVE", t, "logical_or_level_expression") for t in exprs])
+    acc = [t for t, a in zip(exprs, res) if a.startswith("OK 0 ")]
+    ctx.count("hosts-x-expressions:complete-expressions", len(acc))
+    return [h.replace("{X}", x) for h in HOSTS for x in acc]
